@@ -146,11 +146,10 @@ pub fn run(tier: Tier) -> i32 {
     let lv = level(tier);
 
     // (a) kernel, complete small scope
-    let nmax: i128 = if tier.thorough() { 6000 } else { 2000 };
-    let dmax: i128 = 40;
-    let ns: Vec<i128> = (-nmax..=nmax).collect();
+    let nmax: i128 = if tier.thorough() { 30000 } else { 2000 };
+    let dmax: i128 = if tier.thorough() { 100 } else { 40 };
     for mode in ALL_MODES {
-        run.par_for(&ns, || RoundingMode::set_default(mode), |&n, l| {
+        run.par_range(-nmax, nmax, || RoundingMode::set_default(mode), |n, l| {
             for d in (-dmax..=dmax).filter(|d| *d != 0) {
                 kernel_case(n, d, mode, false, l, false);
                 kernel_case(n, d, mode, true, l, false);
@@ -210,10 +209,9 @@ pub fn run(tier: Tier) -> i32 {
     run.stage("round-alphabet", json!({"coefficients":k.len(),"scales":19,"n":"all 256 i8 values","modes":8}));
 
     // (b2) complete small scope
-    let amax: i128 = if tier.thorough() { 20000 } else { 4000 };
-    let small: Vec<i128> = (-amax..=amax).collect();
+    let amax: i128 = if tier.thorough() { 100000 } else { 4000 };
     for mode in ALL_MODES {
-        run.par_for(&small, || RoundingMode::set_default(mode), |&a, l| {
+        run.par_range(-amax, amax, || RoundingMode::set_default(mode), |a, l| {
             for p in 0..=18u8 {
                 for n in -6i8..=18 {
                     if (n as i32) < p as i32 { round_case(a, p, n, mode, l); }
